@@ -860,6 +860,18 @@ pub fn run(args: Args) {
             .filter(|v| v.signature == "c49/radius-secret-released-outside-validity/asker=radius-server")
             .count() as u64;
     run.require(asked > 0, "RADIUS path never asked outside the window as the RADIUS server");
+    // positive controls: nothing may be refused well inside the window
+    let failed: u64 = run
+        .acc
+        .counters
+        .iter()
+        .filter(|(k, _)| k.starts_with("control_failed_inside."))
+        .map(|(_, v)| *v)
+        .sum();
+    run.require(
+        failed == 0,
+        &format!("{failed} positive controls inside the validity window were refused (see observed_sets.control_failures)"),
+    );
     run.finish();
 }
 
